@@ -321,7 +321,7 @@ func normField(f string) string {
 	for _, p := range ps {
 		l := append([]string{}, p.lits...)
 		sort.Strings(l)
-		l = dedupeSorted(l)
+		l = dropImpliedNil(dedupeSorted(l))
 		contra := false
 		set := map[string]bool{}
 		for _, x := range l {
@@ -516,4 +516,51 @@ func clampSlot(t string) (string, string, bool) {
 		return "", "", false
 	}
 	return t[j:k], t[end+1:], true
+}
+
+// dropImpliedNil: net.IP.To16 and To4 return nil for a nil receiver, so "X.To16() != nil" implies "X != nil":
+// `if ip == nil || ip.To16() == nil` and `if ip.To16() == nil` are the same test
+func dropImpliedNil(lits []string) []string {
+	nonNilOf := func(l string) (string, bool) { // "!(A==B)" with one side const:nil…: the other side
+		if !strings.HasPrefix(l, "!(") || !strings.HasSuffix(l, ")") {
+			return "", false
+		}
+		in := l[2 : len(l)-1]
+		i := splitTop(in, "==")
+		if i < 0 {
+			return "", false
+		}
+		a, b := in[:i], in[i+2:]
+		isNil := func(x string) bool { return strings.HasPrefix(x, "const:nil") && !strings.Contains(x, ".To") }
+		switch {
+		case isNil(a) && !isNil(b):
+			return b, true
+		case isNil(b) && !isNil(a):
+			return a, true
+		case isNil(a) && isNil(b):
+			return a, true // the degenerate literal nil != nil (dead alternative), kept consistent on both sides
+		}
+		return "", false
+	}
+	implied := map[string]bool{}
+	for _, l := range lits {
+		if x, ok := nonNilOf(l); ok {
+			for _, suf := range []string{".To16()", ".To4()"} {
+				if strings.HasSuffix(x, suf) {
+					implied[strings.TrimSuffix(x, suf)] = true
+				}
+			}
+		}
+	}
+	if len(implied) == 0 {
+		return lits
+	}
+	var out []string
+	for _, l := range lits {
+		if x, ok := nonNilOf(l); ok && implied[x] {
+			continue
+		}
+		out = append(out, l)
+	}
+	return out
 }
